@@ -125,8 +125,8 @@ impl Scenario for C08 {
             p.note = format!("sweep: {} as {}", self.corpus.files[f].0, ENCS[e as usize].name());
             return p;
         }
-        if tier == Tier::Thorough && idx + 3 > self.total_runs(tier) {
-            // thorough tier only: files of tens of MiB whose meaningful content comes last (assembled at execution time from a
+        if idx + 3 > self.total_runs(tier) {
+            // both tiers (thorough only until round 13; the two of them cost half a second): files of tens of MiB whose meaningful content comes last (assembled at execution time from a
             // filler size and a small tail, so that the plan stays small), through the real file system
             let k = self.total_runs(tier) - idx; // 1 or 2
             let mut p = Plan::new("C08", "giant-file", seed, idx);
